@@ -9,6 +9,7 @@ import (
 	"testing"
 	"time"
 
+	"github.com/IrineSistiana/mosdns/v5/pkg/pool"
 	"github.com/IrineSistiana/mosdns/v5/zz_verif/fk"
 	"github.com/IrineSistiana/mosdns/v5/zz_verif/vnet"
 	"github.com/IrineSistiana/mosdns/v5/zz_verif/vr"
@@ -31,12 +32,14 @@ const (
 	c17TcpAnswers = iota
 	c17TcpRefuses
 	c17TcpFailsMid
+	c17TcpStale // every TCP connection answers its first query and is closed by the server when a second one arrives
 )
 
 type c17sys struct {
 	flags   uint16
 	size    int
 	tcpMode int
+	warm    bool // an earlier exchange of the same kind has left its TCP connection in the pool
 	socks5  bool // Opt.Socks5 is set (not implemented for UDP upstreams: both legs must still go to the server itself)
 	q       []byte
 	udpRep  []byte
@@ -87,12 +90,21 @@ func (k c17sink) Dial(ctx context.Context, network, addr string) (stdnet.Conn, e
 		}
 		a, b := fk.NewPipe("tcp", false)
 		var stream []byte
+		served := 0
 		a.WriteHook = func(c *fk.Conn, wb []byte, nth int) error {
 			stream = append(stream, wb...)
 			msgs, rest := fk.Unframe(stream)
 			stream = rest
+			if len(msgs) == 0 && len(stream) >= 2 && fk.QName(stream[2:]) == "" && len(stream) > 14 {
+				s.tcpGot = append(s.tcpGot, append([]byte(nil), stream...)) // not a framed DNS query at all
+			}
 			for _, m := range msgs {
 				s.tcpGot = append(s.tcpGot, m)
+				served++
+				if s.tcpMode == c17TcpStale && served > 1 {
+					b.ShutdownPeer()
+					continue
+				}
 				if s.tcpMode == c17TcpFailsMid {
 					b.ShutdownPeer()
 					continue
@@ -129,6 +141,13 @@ func (s *c17sys) run() {
 	if err != nil {
 		panic(err)
 	}
+	if s.warm {
+		wctx, wcancel := vs.WithTimeout(context.Background(), 3*time.Second)
+		if wr, _ := u.ExchangeContext(wctx, s.q); wr != nil {
+			pool.ReleaseBuf(wr)
+		}
+		wcancel()
+	}
 	ctx, cancel := vs.WithTimeout(context.Background(), 3*time.Second)
 	r, err := u.ExchangeContext(ctx, s.q)
 	cancel()
@@ -143,7 +162,7 @@ func (s *c17sys) run() {
 // judge returns an outcome class and an optional violation (oracle, description).
 func (s *c17sys) judge(x *vs.Exec) (string, string, string) {
 	tc := s.flags&0x0200 != 0
-	desc := fmt.Sprintf("udp reply flags=%#04x size=%d tcpMode=%d socks5=%v -> err=%v resp=%d bytes dials=%v tcpQueries=%d", s.flags, s.size, s.tcpMode, s.socks5, s.err, len(s.resp), s.dials, len(s.tcpGot))
+	desc := fmt.Sprintf("udp reply flags=%#04x size=%d tcpMode=%d socks5=%v warm=%v -> err=%v resp=%d bytes dials=%v tcpQueries=%d", s.flags, s.size, s.tcpMode, s.socks5, s.warm, s.err, len(s.resp), s.dials, len(s.tcpGot))
 	if x.Panic != "" {
 		return "panic", "panic", x.Panic + "\n" + desc
 	}
@@ -186,7 +205,7 @@ func (s *c17sys) judge(x *vs.Exec) (string, string, string) {
 		}
 	}
 	switch s.tcpMode {
-	case c17TcpAnswers:
+	case c17TcpAnswers, c17TcpStale:
 		if s.err != nil || !bytes.Equal(s.resp, s.tcpRep) {
 			return "tc", "tcp-reply-not-returned", "the TCP reply is not what the caller got\n" + desc
 		}
@@ -195,7 +214,7 @@ func (s *c17sys) judge(x *vs.Exec) (string, string, string) {
 			return "tc", "tcp-failure-masked", "the TCP side failed but the call returned a reply\n" + desc
 		}
 	}
-	return fmt.Sprintf("tc/tcpmode%d/size%d/attempts%d", s.tcpMode, s.size, ntcp), "", ""
+	return fmt.Sprintf("tc/tcpmode%d/size%d/warm%v/attempts%d", s.tcpMode, s.size, s.warm, ntcp), "", ""
 }
 
 var c17Sizes = []int{12, 512, 4095}
@@ -210,9 +229,10 @@ func TestVerifC17a(t *testing.T) {
 		Size    int    `json:"size"`
 		TcpMode int    `json:"tcp_mode"`
 		Socks5  bool   `json:"socks5,omitempty"`
+		Warm    bool   `json:"warm,omitempty"`
 	}
 	runOne := func(c in) (string, string, string) {
-		s := &c17sys{flags: c.Flags, size: c.Size, tcpMode: c.TcpMode, socks5: c.Socks5}
+		s := &c17sys{flags: c.Flags, size: c.Size, tcpMode: c.TcpMode, socks5: c.Socks5, warm: c.Warm}
 		x := vs.Run1(vs.Config{Horizon: time.Minute}, s.run)
 		res.Transitions += int64(x.Events)
 		return s.judge(x)
@@ -236,7 +256,7 @@ func TestVerifC17a(t *testing.T) {
 		for f := 0; f < 65536; f++ {
 			for _, sz := range c17Sizes {
 				for m := 0; m < 3; m++ {
-					cases = append(cases, in{uint16(f), sz, m, false})
+					cases = append(cases, in{Flags: uint16(f), Size: sz, TcpMode: m})
 				}
 			}
 		}
@@ -245,13 +265,13 @@ func TestVerifC17a(t *testing.T) {
 		// all 65536 flag values with one size and an answering TCP side; every
 		// value of byte 2 x 4 values of byte 3 with every size and TCP behaviour
 		for f := 0; f < 65536; f++ {
-			cases = append(cases, in{uint16(f), 512, c17TcpAnswers, false})
+			cases = append(cases, in{Flags: uint16(f), Size: 512, TcpMode: c17TcpAnswers})
 		}
 		for b2 := 0; b2 < 256; b2++ {
 			for _, b3 := range []int{0x00, 0x80, 0x0F, 0xFF} {
 				for _, sz := range c17Sizes {
 					for m := 0; m < 3; m++ {
-						cases = append(cases, in{uint16(b2<<8 | b3), sz, m, false})
+						cases = append(cases, in{Flags: uint16(b2<<8 | b3), Size: sz, TcpMode: m})
 					}
 				}
 			}
@@ -262,10 +282,19 @@ func TestVerifC17a(t *testing.T) {
 	for b2 := 0; b2 < 256; b2++ {
 		for _, sz := range c17Sizes {
 			for m := 0; m < 3; m++ {
-				cases = append(cases, in{uint16(b2<<8 | 0x80), sz, m, true})
+				cases = append(cases, in{Flags: uint16(b2<<8 | 0x80), Size: sz, TcpMode: m, Socks5: true})
 			}
 		}
 	}
+	// a pooled TCP connection from an earlier truncated exchange, healthy or gone stale
+	for b2 := 0; b2 < 256; b2++ {
+		for _, sz := range c17Sizes {
+			for _, m := range []int{c17TcpAnswers, c17TcpFailsMid, c17TcpStale} {
+				cases = append(cases, in{Flags: uint16(b2<<8 | 0x80), Size: sz, TcpMode: m, Warm: true})
+			}
+		}
+	}
+	res.Bounds["warm"] = "after an earlier exchange of the same kind: all 256 values of byte 2 x sizes x TCP side {answers, fails mid-exchange, pooled connection closed by the server on reuse}"
 	res.Bounds["socks5"] = "Opt.Socks5 set: all 256 values of byte 2 x sizes x TCP behaviours"
 	res.Bounds["sizes"] = c17Sizes
 	res.Bounds["tcp_side"] = []string{"answers", "refuses connection", "fails mid-exchange"}
@@ -306,8 +335,9 @@ func TestVerifC17b(t *testing.T) {
 			sys = &c17sys{}
 			sys.flags = flagsMenu[vs.Choose(len(flagsMenu))]
 			sys.size = c17Sizes[vs.Choose(2)]
-			sys.tcpMode = vs.Choose(3)
+			sys.tcpMode = vs.Choose(4)
 			sys.socks5 = vs.Choose(2) == 1
+			sys.warm = vs.Choose(2) == 1
 			sys.run()
 		},
 		Check: func(x *vs.Exec) (string, *vs.Violation) {
